@@ -481,3 +481,108 @@ def routines(ctx, routine, rank, then, order=2):
         return len(results)
     res = ctx.explore('routine ' + routine, body, cap=128)
     ctx.check('at least one feasible path', len(res) >= 1)
+
+
+# ------------------------------------------------ no hidden state between calls (caches keyed by object identity, ...)
+STATELESS = ['sle.als', 'sle.mals', 'evp.als', 'evp.power_method', 'ode.explicit_euler', 'ode.implicit_euler', 'ode.trapezoidal_rule', 'ode.hod',
+             'ode.tdvp1site', 'ode.tdvp2site', 'ode.krylov', 'ode.errors_expl_euler', 'ode.errors_impl_euler', 'ode.errors_trapezoidal',
+             'ode.strang_splitting', 'TT.norm', 'TT.matmul', 'TT.pinv']
+
+
+def _stateless_call(ctx, R, routine, A, x, y, h):
+    TT = R.TT
+    if routine == 'sle.als':
+        return [R.sle.als(A, x, y, repeats=1)]
+    if routine == 'sle.mals':
+        return [R.sle.mals(A, x, y, repeats=1, threshold=0)]
+    if routine == 'evp.als':
+        ev, et, _ = R.evp.als(A, x, number_ev=1, repeats=1, sigma=1)
+        return [ev, et]
+    if routine == 'evp.power_method':
+        ev, et = R.evp.power_method(A, x, repeats=1, sigma=ctx.scalar('sigma'))
+        return [ev, et]
+    if routine == 'ode.explicit_euler':
+        return list(R.ode.explicit_euler(A, x, [h, h], threshold=0, max_rank=50, normalize=0, progress=False))
+    if routine == 'ode.implicit_euler':
+        return list(R.ode.implicit_euler(A, x, y, [h], threshold=0, normalize=0, progress=False))
+    if routine == 'ode.trapezoidal_rule':
+        return list(R.ode.trapezoidal_rule(A, x, y, [h], threshold=0, normalize=0, progress=False))
+    if routine == 'ode.hod':
+        return list(R.ode.hod(A, x, h, 2, order=2, threshold=0, max_rank=50, normalize=0, progress=False))
+    if routine == 'ode.tdvp1site':
+        return list(R.ode.tdvp1site(A, x, h, 1))
+    if routine == 'ode.tdvp2site':
+        return list(R.ode.tdvp2site(A, x, h, 1, threshold=0, max_rank=50))
+    if routine == 'ode.krylov':
+        return [R.ode.krylov(A, x, 1, h, threshold=0, max_rank=50)]
+    if routine.startswith('ode.errors_'):
+        return list(getattr(R.ode, routine[4:])(A, [x, y, x], [h, h]))
+    if routine == 'ode.strang_splitting':
+        S_ = ctx.input('S', (2, 2), False); L_ = ctx.input('L', (2, 2), False); M_ = ctx.input('M', (2, 2), False)
+        return list(R.ode.strang_splitting(S_, L_, ctx.lift(np.eye(2)), M_, x, h, 1, threshold=0, max_rank=50, normalize=0))
+    if routine == 'TT.norm':
+        return [A.norm(), x.norm()]
+    if routine == 'TT.matmul':
+        return [A @ x, A @ A]
+    if routine == 'TT.pinv':
+        return [x.pinv(1)]
+    raise KeyError(routine)
+
+
+@scenario('C06', 'stateless', lambda tier: [{'routine': r, 'order': o} for o in ((2,) if tier == 'quick' else (2, 3)) for r in STATELESS])
+def stateless(ctx, routine, order=2):
+    """a routine called with objects that were used in an earlier call and then changed IN PLACE (cores of the operator and of the vector replaced)
+    returns what it returns for fresh objects holding the new values: no result depends on anything remembered from the earlier call
+    (memoised intermediates keyed by object identity, module-level caches, default-argument lists)"""
+    TT, R = ctx.R.TT, ctx.R
+    if ctx.mode == 'tv':
+        from symtt.core import SkipTV
+        raise SkipTV()
+    dims = [2] * order
+    sA = {'rows': dims, 'cols': dims, 'ranks': [1] * (order + 1)}
+    sx = {'rows': dims, 'cols': [1] * order, 'ranks': [1] + [2] * (order - 1) + [1]}
+
+    def fresh_state():
+        if ctx.sym:
+            from symtt import state, lapack
+            ex = state.S.explorer
+            state.reset(); state.S.explorer = ex
+            if ex is not None:
+                for a in ctx.assumptions:
+                    ex.assume(a)
+            lapack.set_policy(_order_eig_policy(ctx))
+
+    def dense(o):
+        if isinstance(o, TT):
+            return _open_full(ctx, o)
+        return o
+
+    def body():
+        two, three = ctx.const_frac(2), ctx.const_frac(3)
+        h = ctx.scalar('h', lo=(0,))
+        # ---- history: call, change the objects in place, call again
+        fresh_state()
+        C = TT(mk_cores(ctx, 'A', sA, False))
+        A = C + C.transpose()
+        x = TT(mk_cores(ctx, 'x', sx, False))
+        y = TT(mk_cores(ctx, 'y', sx, False))
+        _stateless_call(ctx, R, routine, A, x, y, h)
+        A.cores[0] = two * A.cores[0]
+        x.cores[order - 1] = three * x.cores[order - 1]
+        fresh_state()
+        got = [dense(o) for o in _stateless_call(ctx, R, routine, A, x, y, h)]
+        # ---- reference: fresh objects holding the new values, same environment answers (the stubs number their answers per run)
+        fresh_state()
+        C2 = TT(mk_cores(ctx, 'A', sA, False))
+        A2 = C2 + C2.transpose()
+        A2.cores[0] = two * A2.cores[0]
+        x2 = TT(mk_cores(ctx, 'x', sx, False))
+        x2.cores[order - 1] = three * x2.cores[order - 1]
+        y2 = TT(mk_cores(ctx, 'y', sx, False))
+        ref = [dense(o) for o in _stateless_call(ctx, R, routine, A2, x2, y2, h)]
+        ctx.check('%s: same number of results' % routine, len(got) == len(ref))
+        for j, (a, b) in enumerate(zip(got, ref)):
+            ctx.eq('%s: result %d after an earlier call and an in-place change of the arguments == result for fresh objects' % (routine, j), a, b, tol=1e-9)
+        return len(got)
+    res = ctx.explore('stateless ' + routine, body, cap=64)
+    ctx.check('at least one feasible path', len(res) >= 1)
